@@ -24,16 +24,19 @@ const char* W_CAT(slot_file, SLOT)() { return __FILE__; }
 #define W_RET .RETURN(wret(eid))
 #define W_THR .THROW(wthrow(eid))
 #define W_NONE
-#define W_MK(CALL, SEQC, WITHC, TERM) \
-  return Created{NAMED_REQUIRE_CALL(wmock(s.obj), CALL) SEQC.RT_TIMES(lo, hi) WITHC W_FX TERM, __LINE__}
+// the object expression carries the slot number, so the expectation text (reports, OK reports,
+// trace records) identifies the slot as well: "wmock_s<3>(s.obj).f(dm_int(s.m[0]))"
+#define W_OBJ2(K) wmock_s<K>(s.obj)
+#define W_MK(OBJ, CALL, SEQC, WITHC, TERM) \
+  return Created{NAMED_REQUIRE_CALL(OBJ, CALL) SEQC.RT_TIMES(lo, hi) WITHC W_FX TERM, __LINE__}
 
 #define W_FORMS(FN, CALL, WITHC, TERM0)               \
-  case FN * 6 + 0: W_MK(CALL, W_SEQ0, WITHC, TERM0);  \
-  case FN * 6 + 1: W_MK(CALL, W_SEQ0, WITHC, W_THR);  \
-  case FN * 6 + 2: W_MK(CALL, W_SEQ1, WITHC, TERM0);  \
-  case FN * 6 + 3: W_MK(CALL, W_SEQ1, WITHC, W_THR);  \
-  case FN * 6 + 4: W_MK(CALL, W_SEQ2, WITHC, TERM0);  \
-  case FN * 6 + 5: W_MK(CALL, W_SEQ2, WITHC, W_THR);
+  case FN * 6 + 0: W_MK(W_OBJ2(SLOT), CALL, W_SEQ0, WITHC, TERM0);  \
+  case FN * 6 + 1: W_MK(W_OBJ2(SLOT), CALL, W_SEQ0, WITHC, W_THR);  \
+  case FN * 6 + 2: W_MK(W_OBJ2(SLOT), CALL, W_SEQ1, WITHC, TERM0);  \
+  case FN * 6 + 3: W_MK(W_OBJ2(SLOT), CALL, W_SEQ1, WITHC, W_THR);  \
+  case FN * 6 + 4: W_MK(W_OBJ2(SLOT), CALL, W_SEQ2, WITHC, TERM0);  \
+  case FN * 6 + 5: W_MK(W_OBJ2(SLOT), CALL, W_SEQ2, WITHC, W_THR);
 
 Created W_CAT(create_slot, SLOT)(const Spec& s) {
   const int eid = s.eid;
